@@ -51,3 +51,22 @@ Qed.
 Example nx_no_trace_by_evaluation :
   render (pick nx_mask (run 3 [] sample (start 1 ex_vals) nx_ops)) = reference ex_vals ex3_D.
 Proof. vm_compute. reflexivity. Qed.
+
+(* restarts right after a rejected Process and between a Build and its Process (for C08) *)
+Definition rx_sc : list slot :=
+  map (fun e => {| s_pre := if eid (fe e) =? 1010 then [OpP nx_wrong; OpR] else [];
+                   s_ev := e;
+                   s_mid := if eid (fe e) =? 1020 then [OpR] else if eid (fe e) =? 1016 then [OpP nx_wrong; OpR] else [] |}) ex3_D.
+Definition rx_ops := sched_ops (fun _ => 0) ex_vals rx_sc [OpR].
+Definition rx_mask := sched_mask rx_sc [OpR].
+Example rx_D : map s_ev rx_sc = ex3_D.
+Proof. unfold rx_sc. rewrite map_map. apply map_id. Qed.
+Example rx_side : noise_side ex3_D nx_J 100 rx_ops.
+Proof.
+  split; [exact (proj1 nx_side)|]. split; [exact (proj1 (proj2 nx_side))|]. split; [vm_compute; discriminate | vm_compute; reflexivity].
+Qed.
+Example rx_ok : ok_from 200 nx_J (start 1 ex_vals) rx_ops rx_mask.
+Proof. vm_compute. repeat split; try discriminate; try reflexivity. Qed.
+Example rx_restarts : length (filter (fun o => match o with ObsR None [] _ _ => true | _ => false end) (run 200 [] sample (start 1 ex_vals) rx_ops)) = 4%nat /\
+  render (pick rx_mask (run 200 [] sample (start 1 ex_vals) rx_ops)) = reference ex_vals ex3_D.
+Proof. vm_compute. split; reflexivity. Qed.
